@@ -313,4 +313,51 @@ theorem count_reach {fn : CurryFn} {c c' : Curry} (r : CReach fn c c') :
   | refl => rfl
   | step _ st ih => rw [count_step st, ih]
 
+/-! ### every goroutine's Calls take the lock in its program order -/
+
+/-- goroutine `t` with script `s` has made a prefix `made` of it, in this order within `lockOrder` -/
+def ProgOrder (scripts : List (List (List Int))) (c : Curry) : Prop :=
+  ∀ (t : Nat) (s : List (List Int)), scripts[t]? = some s → ∃ (made rest : List (List Int)), c.pending[t]? = some rest ∧ s = made ++ rest ∧ made.Sublist c.lockOrder
+
+theorem progOrder_init (scripts : List (List (List Int))) : ProgOrder scripts (Curry.init scripts) := by
+  intro t s hs
+  exact ⟨[], s, hs, rfl, List.nil_sublist _⟩
+
+theorem progOrder_step {fn : CurryFn} {scripts : List (List (List Int))} {c c' : Curry}
+    (h : ProgOrder scripts c) (st : CStep fn c c') : ProgOrder scripts c' := by
+  cases st with
+  | acquire t he =>
+    unfold Curry.acquire at he
+    split at he
+    · rename_i a rest _ hp
+      injection he with he; subst he
+      intro t' s hs
+      obtain ⟨made, rest', h1, h2, h3⟩ := h t' s hs
+      by_cases htt : t = t'
+      · subst htt
+        rw [hp] at h1; injection h1 with h1; subst h1
+        have hlt : t < c.pending.length := by
+          rcases Nat.lt_or_ge t c.pending.length with hl | hl
+          · exact hl
+          · rw [List.getElem?_eq_none hl] at hp; cases hp
+        refine ⟨made ++ [a], rest, by simp [hlt], by simp [h2], ?_⟩
+        exact List.Sublist.append h3 (List.Sublist.refl _)
+      · refine ⟨made, rest', ?_, h2, h3.trans (List.sublist_append_left _ _)⟩
+        simp only
+        rw [List.getElem?_set_ne htt]; exact h1
+    · cases he
+  | advance he =>
+    unfold Curry.advance at he
+    split at he
+    · cases he
+    all_goals (injection he with he; subst he; exact h)
+  | markDone => exact h
+
+theorem progOrder_reach {fn : CurryFn} {scripts : List (List (List Int))} {c : Curry}
+    (r : CReach fn (Curry.init scripts) c) : ProgOrder scripts c := by
+  generalize hi : Curry.init scripts = c0 at r
+  induction r with
+  | refl => subst hi; exact progOrder_init scripts
+  | step _ st ih => exact progOrder_step ih st
+
 end FpgoVerif.C20
